@@ -37,7 +37,8 @@ impl UdpBuilder {
         Ok(None)
     }
 
-    pub fn bind(&self, addr: SocketAddr) -> io::Result<mio::net::RawUdp> {
+    pub fn bind<T: std::net::ToSocketAddrs>(&self, addr: T) -> io::Result<mio::net::RawUdp> {
+        let addr = addr.to_socket_addrs()?.next().ok_or_else(|| io::Error::new(io::ErrorKind::InvalidInput, "no address"))?;
         dsim::yield_point(dsim::Op::Small);
         dsim::with(|w| w.udp_bind(self.id, addr))?;
         Ok(mio::net::RawUdp(self.id))
@@ -73,6 +74,11 @@ impl TcpBuilder {
 
     pub fn take_error(&self) -> io::Result<Option<io::Error>> {
         Ok(None)
+    }
+
+    /// the address handed to `bind` (the port is known before `listen` in this model)
+    pub fn local_addr(&self) -> io::Result<SocketAddr> {
+        self.addr.get().ok_or_else(|| io::Error::new(io::ErrorKind::InvalidInput, "not bound"))
     }
 
     pub fn bind<A: std::net::ToSocketAddrs>(&self, addr: A) -> io::Result<&TcpBuilder> {
